@@ -9,6 +9,7 @@ CONSTANTS
   InputOps = {"clear_output", "set_input", "clear_input"}
   Entries = {"run", "call"}
   TracerStyles = {"none"}
+  Threadeds = {FALSE}
   Flags = {}
 INVARIANT Restored
 INVARIANT Contained
